@@ -390,6 +390,55 @@ def build():
         note="shape-bounded: 3 tasks, batch_size == 1 (the loop runs over a user iterable; its body is verified for each of the 3 positions)",
     ))
 
+    # ... and for ANY number of tasks (loop invariant instead of the 3-task unrolling): the k-th iteration runs task k - none skipped, none
+    # twice - yields its value as the k-th result, and the counters follow
+    def any_tasks(interp):
+        ctx = interp.ctx
+        n = INT.fresh(ctx, "ntasks")
+        ctx.assume(n.term >= 0)
+        ctx.ghost["NTASKS"] = n
+        return Opaque("tasklist", None, seq=(n.term, lambda i: (Opaque("taskfn", None, idx=Sym(INT, i)), (), PyDict({}))))
+
+    def any_task_call(interp, fv, args, kwargs):
+        ctx = interp.ctx
+        g = ctx.ghost
+        idx = ops.as_int_term(fv.attrs["idx"])
+        ctx.check("%s/task-run.next-task-in-submission-order-exactly-once" % interp.contract.qualname, idx == ops.as_int_term(g["RUNS"]),
+                  detail="the k-th call made by the sequential loop is task k")
+        g["RUNS"] = Sym(INT, ops.as_int_term(g["RUNS"]) + 1)
+        if ctx.choose(2, "task-raises") == 1:
+            g["FAILED_AT"] = Sym(INT, idx)
+            interp.raise_("ValueError")
+        return Sym(Res, Run(idx))
+
+    p.models["taskfn.__call__"] = any_task_call
+
+    def seq_any_setup(interp, env):
+        g = interp.ctx.ghost
+        g["CHECK_ORDER"] = True
+        g["NY"] = 0
+        g["RUNS"] = 0
+        g["FAILED_AT"] = -1
+
+    QS = "self._running is False and self._iterating is False and self._original_iterator is None"
+    p.add(Contract(
+        PAR, "Parallel._get_sequential_output", variant="any-number-of-tasks", props=["C01", "C04", "C09", "C16"], generator=True, setup=seq_any_setup, closes=True,
+        inline={"_get_batch_size"}, ghost=dict(NTASKS=INT),
+        params=dict(self=parallel(batch_size=1, _original_iterator=None), iterable=any_tasks),
+        ensures={"quiescent": QS,
+                 "every_task_ran_once_in_order": "RUNS == NTASKS and NY == NTASKS",
+                 "counts": "self.n_completed_tasks == old(self.n_completed_tasks) + NTASKS and self.n_dispatched_tasks == old(self.n_dispatched_tasks) + NTASKS"},
+        exsures={"ValueError": {"quiescent": QS, "flagged": "self._exception is True and self._aborting is True and self._aborted is True",
+                                "stopped_at_the_failing_task": "RUNS == FAILED_AT + 1 and NY == FAILED_AT"},
+                 "GeneratorExit": {"quiescent": QS, "flagged": "self._exception is True and self._aborting is True",
+                                   "nothing_ran_after_the_close": "RUNS == NY"}},
+        loops={1: Loop("for (func, args, kwargs) in iterable",
+                       invariant={"one_task_per_iteration": "RUNS == _i and NY == _i",
+                                  "counters_follow": "self.n_completed_tasks == old(self.n_completed_tasks) + _i and self.n_dispatched_tasks == old(self.n_dispatched_tasks) + _i "
+                                                     "and self.n_dispatched_batches == old(self.n_dispatched_batches) + _i"},
+                       havoc=["ghost:RUNS", "ghost:NY"])},
+    ))
+
     # ------------------------------------------------------------------ __enter__ / __exit__
     p.add(Contract(
         PAR, "Parallel.__enter__", props=["C04", "C16"], ghost=dict(NJOBS=INT),
